@@ -1,6 +1,8 @@
 import GlmVerif.Spec.C02
+import GlmVerif.Spec.C10
 namespace Glm.Spec
 def familiesOf : String → List Family
   | "C02" => C02.families
+  | "C10" => C10.families
   | _ => []
 end Glm.Spec
